@@ -2,10 +2,13 @@
 
 package fourq
 
-// c14Backend reads the switch the assembly tests (CHECK_BMI2 in fp_amd64.h: fqMul, fqSqr, double, add, mixAdd).
-func c14Backend() string {
-	if hasBMI2 {
-		return "asm-bmi2"
+// Read-out of the switch the assembly tests (CHECK_BMI2 in fp_amd64.h: fqMul, fqSqr, double, add, mixAdd).
+// Only this file names hasBMI2.
+func init() {
+	C14ReadBackend = func() string {
+		if hasBMI2 {
+			return "asm-bmi2"
+		}
+		return "asm-legacy"
 	}
-	return "asm-legacy"
 }
